@@ -241,6 +241,8 @@ theorem delete_never_panics (s : Pkg) (tname : List Char) (cond : Option Ast) :
           · exact hw r h1
 
 
+end MsiProofs.C09
+
 /-! ### `Insert::exec`: no panic while the string pool has room
 
 The one panic the model has on this path that is reachable (known finding D16b) is the capacity
